@@ -33,7 +33,8 @@
 EXTENDS Naturals, Sequences, FiniteSets, TLC, Json
 
 CONSTANTS Options,   \* <<[key, kind, vk, short, abbrev, destkey]>>
-          Formats    \* subset of {"toml", "cfg", "ini"}: pyproject.toml, setup.cfg, pydoctor.ini
+          Formats,   \* subset of {"toml", "cfg", "ini"}: pyproject.toml, setup.cfg, pydoctor.ini
+          Vias       \* how the file is found: "default" (by its name, in the working directory) | "config" (--config=PATH)
 
 Absent == [has |-> FALSE, v |-> <<>>]
 Val(v) == [has |-> TRUE, v |-> v]
@@ -74,16 +75,16 @@ Unknowns(o, cli) == {"none"} \cup (IF cli.has THEN {} ELSE {"fresh"} \cup (IF o.
 
 VARIABLES s
 vars == <<s>>
-Scenario(i, fmt, file, fstyle, cli, spell, unk) ==
-  [opt |-> i, key |-> Options[i].key, kind |-> Options[i].kind, fmt |-> fmt, file |-> file, fstyle |-> fstyle,
-   cli |-> cli, spell |-> spell, unknown |-> unk]
+Scenario(i, fmt, via, file, fstyle, cli, spell, unk) ==
+  [opt |-> i, key |-> Options[i].key, kind |-> Options[i].kind, fmt |-> fmt, via |-> via, file |-> file,
+   fstyle |-> fstyle, cli |-> cli, spell |-> spell, unknown |-> unk]
 
-Init == \E i \in 1..Len(Options), fmt \in Formats :
+Init == \E i \in 1..Len(Options), fmt \in Formats, via \in Vias :
           \E file \in FileChoices(Options[i]), cli \in CliChoices(Options[i]) :
             \E fstyle \in FileStyles(Options[i], fmt, file), spell \in Spellings(Options[i], cli),
                unk \in Unknowns(Options[i], cli) :
               /\ file.has \/ cli.has \/ unk # "none"
-              /\ s = Scenario(i, fmt, file, fstyle, cli, spell, unk)
+              /\ s = Scenario(i, fmt, via, file, fstyle, cli, spell, unk)
 Next == UNCHANGED vars
 Spec == Init /\ [][Next]_vars
 
